@@ -38,6 +38,8 @@ def explore(ctx):
             prot, mname = (b"", me) if i < 0 else (me[:i], me[i + 1:])
             protos = "%s:%s" % (prot.hex(), mname.hex())
             arg = mp.gen_value(rng, 3, wide=rng.chance(1, 6))
+            if rng.chance(1, 8):
+                arg = rng.choice([None, ("b", b""), ("s", b""), [], ("m", []), 0, False])    # the values an "is it empty?" shortcut would catch
             tags = mp.gen_tags(rng) if rng.chance(1, 2) else None
             seq = rng.choice([0, 1, 127, 128, 255, 256, 65535, 65536, 2 ** 31, 2 ** 32, 2 ** 62, rng.below(2 ** 40)])
             base = "enc e%d kind=%s max=1048576 protocols=%s seq=%d meth=%s arg=%s tags=%s" % (k, kind, protos, seq, me.hex(), T(arg), tagspec(tags))
